@@ -339,7 +339,8 @@ impl Config for ZstTables {
         crate::crumbs::set_config(&self.label());
         let t0 = std::time::Instant::now();
         let mut rep = ConfigReport { label: self.label(), mode: "enum".into(), exhaustive: true, ..Default::default() };
-        let maxn = if self.tier == Tier::Quick { 20 } else { 40 };
+        // (interpreter-sized under the Miri executor)
+        let maxn = if std::env::var("HBMC_TINY").is_ok() { 5 } else if self.tier == Tier::Quick { 20 } else { 40 };
         'outer: for n in 0..=maxn {
             let masks: Vec<u32> = if n <= 8 { (0..(1u32 << n)).collect() } else { vec![0, !0, 0x5555_5555, 0xAAAA_AAAA, 1, 2, 1 << (n - 1).min(31), 0x0f0f_0f0f, !1] };
             for &m in &masks {
